@@ -108,7 +108,15 @@ class USBIsochronousStreamOutEndpoint(Elaboratable):
 
         sufficient_space         = (fifo.space_available >= self._max_packet_size)
 
-        okay_to_receive          = targeting_endpoint & sufficient_space
+        # We decide whether we have room for a packet once, when its first byte arrives, and then stick to that
+        # decision for the rest of the packet. Re-evaluating `sufficient_space` for every byte would make us skip the
+        # tail of a packet as soon as its own bytes have used up the headroom -- and then commit a truncated packet.
+        packet_accepted          = Signal()
+        accept_byte              = Mux(rx_first, sufficient_space, packet_accepted)
+        with m.If(rx.next & rx.valid & rx_first):
+            m.d.usb += packet_accepted.eq(sufficient_space)
+
+        okay_to_receive          = targeting_endpoint & accept_byte
         data_is_lost             = okay_to_receive & rx.next & rx.valid & fifo.full
 
         full_packet              = rx_cnt == self._max_packet_size - 1
